@@ -50,6 +50,12 @@ def modalCod : Spec :=
 /-- « Il mange avec lui » / « Il mange avec il » -/
 def otherPrepPro : Spec :=
   { subj := some il, verb := mangerLex, t := .p, comps := [.pp "avec".toList (chat 1 .m true)], typ := {} }
+/-- « Je peux me manger » / « Je peux se manger »: `.typ({refl:true, mod:"poss"})` with a 1st person subject and a verb
+    whose pattern accepts « réfl » — the infinitive created by the modality shares the person of the subject in the
+    constituent notation only -/
+def reflModalPerson : Spec :=
+  { subj := some (.pro false 1 .s .m), verb := { mangerLex with pat := some ["tdir".toList, "réfl".toList] }, t := .p,
+    comps := [], typ := { mod := some "poss".toList, refl := true } }
 
 theorem notations_agree_fr_refuted : ¬ notations_agree_fr := by
   intro h
@@ -61,6 +67,8 @@ theorem agree_woi_prep : realize .phrase woiPrep = realize .dep woiPrep ∧ (rea
 theorem disagree_whe_second_pp : realize .phrase wheSecondPP ≠ realize .dep wheSecondPP := by decide
 theorem disagree_modal_cod : realize .phrase modalCod ≠ realize .dep modalCod := by decide
 theorem disagree_other_prep_pronoun : realize .phrase otherPrepPro ≠ realize .dep otherPrepPro := by decide
+theorem disagree_refl_modal_person : realize .phrase reflModalPerson ≠ realize .dep reflModalPerson ∧
+    (realize .phrase reflModalPerson).isOk = true ∧ (realize .dep reflModalPerson).isOk = true := by decide
 
 /-! ### what does agree: the shared placement step -/
 
